@@ -1036,3 +1036,43 @@ Proof.
     + intros ev [<-|[<-|[]]]; cbn; auto.
   - vm_compute. repeat split; reflexivity.
 Qed.
+
+(* ------------------------------------------------------------------ crash and restart (C04) *)
+(* the process dies: every delivered, unacknowledged event goes back to the head of the queue (the broker
+   redelivers it); timers and the bookkeeping of pending requests are gone; what is at the workers, on the
+   reply queue and in the stores stays *)
+Definition crash (w : world) : world :=
+  {| queue := hevents w ++ queue w; held := []; requests := requests w; replies := replies w; next_id := next_id w; next_tid := next_tid w;
+     statuses := statuses w; notes := notes w; hist := hist w; acked := acked w |}.
+
+(* C04: a crash loses no carrier: every execution has as many events carrying it as before, all of them queued again;
+   records, notifications, history and acknowledgements are untouched *)
+Theorem crash_loses_nothing w x :
+  tokens (crash w) x = tokens w x /\ cntx x (hevents (crash w)) = 0 /\
+  statuses (crash w) = statuses w /\ notes (crash w) = notes w /\ hist (crash w) = hist w /\ acked (crash w) = acked w /\
+  (forall m, In m (live_ids (crash w)) <-> In m (live_ids w)).
+Proof.
+  assert (hevents (crash w) = []) as Hh by reflexivity.
+  assert (queue (crash w) = hevents w ++ queue w) as Hq by reflexivity.
+  unfold tokens. rewrite Hh, Hq, cntx_app. repeat split; try reflexivity; try (unfold cntx; cbn; lia).
+  - unfold live_ids. rewrite Hh, Hq, map_app. cbn. rewrite app_nil_r, !in_app_iff. tauto.
+  - unfold live_ids. rewrite Hh, Hq, map_app. cbn. rewrite app_nil_r, !in_app_iff. tauto.
+Qed.
+
+(* C04: whatever is queued can be delivered: after the restart every redelivered event has an enabled step *)
+Theorem queued_event_can_be_delivered kind s0 w e : In e (queue w) -> exists i w' effs, step kind s0 w i = Some (w', effs).
+Proof.
+  intros He. destruct (find_event_some _ _ He) as (e' & Hf). set (n := Nat.max (next_id w) (next_tid w)).
+  assert (Nat.leb (next_tid w) n = true) as Ln by (apply Nat.leb_le; unfold n; lia).
+  exists (IDeliver (e_id e) (match kind (state_of s0 e') with KFail => DFailed | _ => DEnd end) n). cbn [step]. rewrite Hf. unfold state_of.
+  destruct (e_state e') as [s|]; unfold enter; cbn [with_queue started next_tid]; destruct (kind _) eqn:K; cbn; rewrite ?K, ?Ln; cbn;
+    eexists; eexists; reflexivity.
+Qed.
+
+(* C04: so an execution that had a carrier before the crash has an enabled step after it *)
+Theorem carried_execution_survives_crash kind s0 w x : 1 <= tokens w x -> exists i w' effs, step kind s0 (crash w) i = Some (w', effs).
+Proof.
+  intros H. destruct (crash_loses_nothing w x) as (T & Hh & _). rewrite <- T in H. unfold tokens in H. rewrite Hh in H.
+  assert (1 <= cntx x (queue (crash w))) as Q by lia. destruct (cntx_pos_ex _ _ Q) as (e & He & _).
+  exact (queued_event_can_be_delivered kind s0 (crash w) e He).
+Qed.
